@@ -17,7 +17,8 @@ from vf.oracles import cm
 PROPERTY = 'C01'
 RULE = ('tier A: every (model, word) with the model in a seeded slice (quick) or the whole (thorough) of '
         'the small scopes S1 (two element names, <= 3 leaves, depth <= 2), S2 (substitution head, '
-        '##other / ##any wildcards) and S4 (all-groups, named group references, XSD 1.1 open content), '
+        '##other / ##any wildcards), S4 (all-groups, named group references, XSD 1.1 open content) and S6 '
+        '(models with prohibited maxOccurs=0 particles), '
         'and the word over the instance alphabet up to length 5 (S1) / 3-4 (S2,S4); tier B: Hypothesis '
         'models up to depth 3 x all words <= 4 + random walks of the automaton and their one-edit '
         'mutants. Oracle: automaton membership; rejected sequences must carry an error located at the '
@@ -30,15 +31,17 @@ ASSUMPTIONS = [
     'the domain (the rest is C15\'s subject)',
 ]
 BATCH = 50
-QUICK_FRACTION = {'S1': 0.025, 'S2': 0.08}
-ALPHA = {'S1': 'bc', 'S2': 'abmf'}
+QUICK_FRACTION = {'S1': 0.025, 'S2': 0.08, 'S6': 0.1}
+ALPHA = {'S1': 'bc', 'S2': 'abmf', 'S6': 'bc'}
 _WORDS = {}
 
 
 def words_for(scope, tier):
     k = (scope, tier)
     if k not in _WORDS:
-        if scope == 'S1':
+        if scope == 'S6':
+            w = cm.words('bc', 5 if tier == 'thorough' else 4)
+        elif scope == 'S1':
             w = cm.words('bc', 6 if tier == 'thorough' else 5)
             w += [x for x in cm.words('bcu', 3) if x.count('u') == 1]
         else:
@@ -101,7 +104,23 @@ def classify(ver, m, A, oc=None):
         cl.append('weakdet')
     if ver == '11' and A.overlap11():
         cl.append('11-precedence')
+    if prohibited_choice_branch(m):
+        cl.append('prohibited-choice-branch')
     return cl
+
+
+def effectively_prohibited(n):
+    return n[3] == 0 or (n[0] != 'e' and all(effectively_prohibited(c) for c in n[1]))
+
+
+def prohibited_choice_branch(n):
+    """Input-only predicate: some choice has a branch that is prohibited (maxOccurs = 0, or a group
+    all of whose particles are)."""
+    if n[0] == 'e':
+        return False
+    if n[0] == 'cho' and any(effectively_prohibited(c) for c in n[1]):
+        return True
+    return any(prohibited_choice_branch(c) for c in n[1])
 
 
 def judge_words(ver, s, i, m, A, wordlist, st, oc=None, alphabet='bc', check_parent=True,
@@ -213,7 +232,7 @@ def shards(tier, seed):
     out = []
     n = 16
     for ver in ('10', '11'):
-        for name in ('S1', 'S2'):
+        for name in ('S1', 'S2', 'S6'):
             for k in range(n):
                 out.append(('A', ver, name, k, n, tier, seed))
         for k in range(4):
